@@ -211,6 +211,12 @@ func c13Corpus() ([]*corpusItem, error) {
 				return sch, err
 			}})
 	}
+	// a target filter next to lines the reader itself rejects: filtered-out records directly before and after such lines
+	extra = append(extra,
+		&corpusItem{Name: "c13/csv-filter-and-rejected-lines", Format: "csv", Schema: []byte(strings.Replace(miniCSV, `{"FINAL_OUTPUT": {"object"`, `{"FINAL_OUTPUT": {"xpath": ".[id != '3' and id != '5']", "object"`, 1)),
+			Input: []byte("id,name,qty\n1,alpha,10\n2,be\"ta,20\n3,gamma,30\n4,\"del\"ta,40\n5,eps,50\n6,\"open\"x,60\n7,eta,70\n8,theta,80\n3,again,31\n9,io\"ta,90\n10,kappa,100\n11,lambda,110\n")},
+		&corpusItem{Name: "c13/csv2-filter-and-rejected-lines", Format: "csv2", Schema: []byte(strings.Replace(miniCSV2, `{"FINAL_OUTPUT": {"object"`, `{"FINAL_OUTPUT": {"xpath": ".[id != 'c']", "object"`, 1)),
+			Input: []byte("H,a,1\nD,x\nH,c,3\nH,b\"b,2\nD,y\nH,d,4\nD,z\nH,c,5\nD,\"z\"z\nH,e,6\nH,f,7\n")})
 	extra = append(extra, &corpusItem{Name: "c13/builtin-funcs", Format: "json", Schema: []byte(c13BuiltinFuncs), Input: []byte(c13ExtFuncsInput)})
 	for _, it := range extra {
 		if it.mk != nil {
